@@ -14,7 +14,8 @@
 //!        `Project::analyse()` (all linters on) as it is and after each of n_transforms token-preserving
 //!        transformations (k%7: 0 re-spacing, 1 comments inserted/deleted, 2 case permutation, 3 all three,
 //!        4 every file joined onto one line, 5 one token per line, 6 ONE file only: header lines
-//!        prepended / joined / split / re-spaced, the other files untouched; `M:` corpus projects: every (file, operation) pair);
+//!        prepended / joined / split / re-spaced, the other files untouched, and the same edit applied IN PLACE to a live
+//!        project (update_source) and re-analysed; `M:` corpus projects: every (file, operation) pair);
 //!        diagnostics are compared through the token-index map.
 //!   c13 replay <replay.json> <workdir>               re-run one recorded (original, transformed) pair
 //!
@@ -469,28 +470,72 @@ fn pick_line_comment(rng: &mut Rng) -> String {
     if rng.below(2) == 0 { LINE_COMMENTS[rng.below(LINE_COMMENTS.len())].to_string() } else { random_line_comment(rng) }
 }
 
-fn new_gap(rng: &mut Rng, orig: &[char], mode: u32, must_sep: bool, is_tail: bool, st: &mut TStats) -> String {
-    let pieces = match split_gap(orig) {
-        Some(p) => p,
-        None => return orig.iter().collect(),
-    };
-    if pieces.iter().any(|p| match p {
+fn piece_is_directive(p: &Piece) -> bool {
+    match p {
         Piece::Line(s) => is_directive_body(&s[2..]),
         Piece::Block(s) => is_directive_body(&s[2..s.len() - 2]),
         _ => false,
-    }) {
-        return orig.iter().collect();
     }
+}
+fn piece_str(p: &Piece) -> &str {
+    match p {
+        Piece::Ws(s) | Piece::Line(s) | Piece::Block(s) => s,
+    }
+}
+
+/// Directive comments (`vhdl_ls off` / `vhdl_ls on`) are never deleted, altered or inserted, and keep their
+/// attachment: a `--` directive that is the TRAILING comment of the previous token (same line, only blanks
+/// between) stays trailing (that part of the gap is copied), every other directive stays a leading comment
+/// (a line break or a comment stands between the previous token and it).  Everything else in the gap —
+/// blanks, ordinary comments, also between a directive and the next token — is transformed as usual.
+fn new_gap(rng: &mut Rng, orig: &[char], mode: u32, must_sep: bool, is_tail: bool, after_token: bool, st: &mut TStats) -> String {
+    let all_pieces = match split_gap(orig) {
+        Some(p) => p,
+        None => return orig.iter().collect(),
+    };
+    let mut prefix = String::new();
+    let mut pieces: &[Piece] = &all_pieces;
+    if after_token {
+        if let Some(i) = all_pieces.iter().position(|p| !matches!(p, Piece::Ws(_))) {
+            let blanks_only = all_pieces[..i].iter().all(|p| !piece_str(p).contains(['\n', '\r']));
+            if matches!(all_pieces[i], Piece::Line(_)) && piece_is_directive(&all_pieces[i]) && blanks_only {
+                for p in &all_pieces[..=i] {
+                    prefix.push_str(piece_str(p));
+                }
+                pieces = &all_pieces[i + 1..];
+            }
+        }
+    }
+    let has_directive = !prefix.is_empty() || pieces.iter().any(piece_is_directive);
     if mode & MODE_JOIN != 0 {
-        st.comments_removed += pieces.iter().filter(|p| !matches!(p, Piece::Ws(_))).count();
+        st.comments_removed += pieces.iter().filter(|p| !matches!(p, Piece::Ws(_)) && !piece_is_directive(p)).count();
+        if has_directive {
+            // directives keep lines of their own
+            let mut out = prefix.clone();
+            let mut pending = !prefix.is_empty();
+            for p in pieces.iter().filter(|p| piece_is_directive(p)) {
+                if pending || matches!(p, Piece::Line(_)) {
+                    out.push('\n');
+                }
+                out.push_str(piece_str(p));
+                pending = matches!(p, Piece::Line(_));
+            }
+            if pending {
+                out.push('\n');
+            } else if must_sep {
+                out.push(' ');
+            }
+            return out;
+        }
         if is_tail {
             return if rng.below(2) == 0 { String::new() } else { "\n".to_string() };
         }
         return if must_sep || (!orig.is_empty() && rng.below(3) != 0) { " ".to_string() } else { String::new() };
     }
     if mode & MODE_SPLIT != 0 {
-        let mut out = String::from(if rng.below(4) == 0 { "\r\n" } else { "\n" });
-        for p in &pieces {
+        let mut out = prefix.clone();
+        out.push_str(if rng.below(4) == 0 { "\r\n" } else { "\n" });
+        for p in pieces {
             match p {
                 Piece::Ws(_) => {}
                 Piece::Line(c) | Piece::Block(c) => {
@@ -504,9 +549,11 @@ fn new_gap(rng: &mut Rng, orig: &[char], mode: u32, must_sep: bool, is_tail: boo
         }
         return out;
     }
-    let mut out = String::new();
+    let mut out = prefix.clone();
     // `pending_nl`: the previous piece was a line comment, the next thing must start with a line break
-    let mut pending_nl = false;
+    let mut pending_nl = !prefix.is_empty();
+    // a comment has been written in this gap (then a following `--` directive is a leading comment)
+    let mut seen_comment = !prefix.is_empty();
     let push_ws = |out: &mut String, rng: &mut Rng, pending_nl: &mut bool, orig_ws: Option<&str>| {
         let respace = mode & MODE_SPACE != 0;
         let w: String = match orig_ws {
@@ -543,25 +590,31 @@ fn new_gap(rng: &mut Rng, orig: &[char], mode: u32, must_sep: bool, is_tail: boo
         }
     };
     maybe_insert(&mut out, rng, &mut pending_nl, st);
+    seen_comment = seen_comment || out.contains("--") || out.contains("/*");
     if pieces.is_empty() && mode & MODE_SPACE != 0 && rng.below(3) == 0 {
         push_ws(&mut out, rng, &mut pending_nl, None);
     }
-    for p in &pieces {
+    for p in pieces {
         match p {
             Piece::Ws(w) => push_ws(&mut out, rng, &mut pending_nl, Some(w)),
             Piece::Line(c) => {
-                if mode & MODE_COMMENT != 0 && rng.below(3) == 0 {
+                let dir = piece_is_directive(p);
+                if !dir && mode & MODE_COMMENT != 0 && rng.below(3) == 0 {
                     st.comments_removed += 1;
                 } else {
                     if pending_nl {
                         out.push('\n');
+                    } else if dir && after_token && !seen_comment && !out.contains(['\n', '\r']) && !out.contains("/*") {
+                        // stays a leading comment of the next token
+                        out.push('\n');
                     }
                     out.push_str(c);
                     pending_nl = true;
+                    seen_comment = true;
                 }
             }
             Piece::Block(c) => {
-                if mode & MODE_COMMENT != 0 && rng.below(3) == 0 {
+                if !piece_is_directive(p) && mode & MODE_COMMENT != 0 && rng.below(3) == 0 {
                     st.comments_removed += 1;
                 } else {
                     if pending_nl {
@@ -569,10 +622,12 @@ fn new_gap(rng: &mut Rng, orig: &[char], mode: u32, must_sep: bool, is_tail: boo
                         pending_nl = false;
                     }
                     out.push_str(c);
+                    seen_comment = true;
                 }
             }
         }
         maybe_insert(&mut out, rng, &mut pending_nl, st);
+        seen_comment = seen_comment || out.contains("--") || out.contains("/*");
     }
     // a line comment may end the file without a line break
     if pending_nl && !(is_tail && mode & MODE_COMMENT != 0 && rng.below(2) == 0) {
@@ -599,7 +654,10 @@ fn transform_file(symbols: &Symbols, rng: &mut Rng, text: &str, mode: u32, st: &
     if text.contains('`') {
         return None;
     }
-    let ft = tokenize(symbols, text);
+    // the tokens INSIDE `vhdl_ls off` .. `vhdl_ls on` regions are found by tokenizing a copy of the text whose
+    // directive comments are spelt `vhdl_ls_off` / `vhdl_ls_on` (same length, same offsets)
+    let masked = text.replace("vhdl_ls off", "vhdl_ls_off").replace("vhdl_ls on", "vhdl_ls_on");
+    let ft = tokenize(symbols, &masked);
     if ft.lexdiags > 0 {
         return None;
     }
@@ -612,31 +670,6 @@ fn transform_file(symbols: &Symbols, rng: &mut Rng, text: &str, mode: u32, st: &
     }
     if toks.iter().any(|t| t.s >= t.e || t.e > chars.len()) {
         return None;
-    }
-    // a real `vhdl_ls off/on` directive anywhere: tokens of the ignored region are not in the stream, keep the file
-    {
-        let mut pe = 0usize;
-        let mut gaps: Vec<&[char]> = toks.iter().map(|t| { let g = &chars[pe..t.s]; pe = t.e; g }).collect();
-        gaps.push(&chars[pe..]);
-        for g in gaps {
-            match split_gap(g) {
-                None => {
-                    let gs: String = g.iter().collect();
-                    if gs.contains("vhdl_ls") {
-                        return None;
-                    }
-                }
-                Some(ps) => {
-                    if ps.iter().any(|p| match p {
-                        Piece::Line(c) => is_directive_body(&c[2..]),
-                        Piece::Block(c) => is_directive_body(&c[2..c.len() - 2]),
-                        _ => false,
-                    }) {
-                        return None;
-                    }
-                }
-            }
-        }
     }
     let mut out = String::new();
     let mut prev_end = 0usize;
@@ -655,7 +688,7 @@ fn transform_file(symbols: &Symbols, rng: &mut Rng, text: &str, mode: u32, st: &
             }
         } else {
             let must_sep = i > 0 && !gap.is_empty() && !may_touch(&chars[toks[i - 1].s..toks[i - 1].e], tt);
-            new_gap(rng, gap, mode, must_sep, false, st)
+            new_gap(rng, gap, mode, must_sep, false, i > 0, st)
         };
         // `-` followed by an inserted `-- ..` would read as a comment that starts one character early
         let g = if g.starts_with('-') && out.ends_with('-') { format!(" {}", g) } else { g };
@@ -678,7 +711,7 @@ fn transform_file(symbols: &Symbols, rng: &mut Rng, text: &str, mode: u32, st: &
         prev_end = t.e;
     }
     let tail = &chars[prev_end..];
-    let g = new_gap(rng, tail, mode, false, true, st);
+    let g = new_gap(rng, tail, mode, false, true, !toks.is_empty(), st);
     if g.chars().ne(tail.iter().copied()) {
         st.changed_gaps += 1;
     }
@@ -799,6 +832,45 @@ fn analyse(dir: &Path, p: &Files) -> Vec<Diagnostic> {
     pr.analyse()
 }
 
+/// the re-layout as an EDIT HISTORY: the original project is loaded and analysed (linters on), then every file
+/// that differs is replaced in place (`Source::change` + `Project::update_source`, what didChange does) and the
+/// project is analysed again
+fn analyse_live(dir: &Path, orig: &Files, trans: &Files) -> Vec<Diagnostic> {
+    let _ = std::fs::remove_dir_all(dir);
+    std::fs::create_dir_all(dir).unwrap();
+    for fs in orig.values() {
+        for (name, text) in fs {
+            std::fs::write(dir.join(name), string_to_l1(text)).unwrap();
+        }
+    }
+    let mut msgs = NullMessages;
+    let mut cfg = Config::default();
+    let c2 = Config::from_str(&config_text(orig), dir).expect("config text");
+    cfg.append(&c2, &mut msgs);
+    let mut pr = Project::from_config(cfg, &mut msgs);
+    pr.enable_all_linters();
+    let _ = pr.analyse();
+    for (lib, fs) in orig {
+        for (i, (name, text)) in fs.iter().enumerate() {
+            let t = &trans[lib][i].1;
+            if t != text {
+                let src = pr.get_source(&dir.join(name)).expect("source of a project file");
+                src.change(None, t);
+                pr.update_source(&src);
+            }
+        }
+    }
+    pr.analyse()
+}
+fn analyse_live_safe(dir: &Path, orig: &Files, trans: &Files) -> Result<Vec<Diagnostic>, String> {
+    catch_unwind(AssertUnwindSafe(|| analyse_live(dir, orig, trans))).map_err(|e| {
+        e.downcast_ref::<String>()
+            .cloned()
+            .or_else(|| e.downcast_ref::<&str>().map(|s| s.to_string()))
+            .unwrap_or_else(|| "panic".to_string())
+    })
+}
+
 fn analyse_safe(dir: &Path, p: &Files) -> Result<Vec<Diagnostic>, String> {
     catch_unwind(AssertUnwindSafe(|| analyse(dir, p))).map_err(|e| {
         e.downcast_ref::<String>()
@@ -913,6 +985,7 @@ fn compare_pair(
     orig: &Files,
     orig_canon: Option<&Result<Vec<String>, String>>,
     trans: &Files,
+    live: bool,
 ) -> (Outcome, Result<Vec<String>, String>) {
     let oc: Result<Vec<String>, String> = match orig_canon {
         Some(c) => c.clone(),
@@ -929,6 +1002,31 @@ fn compare_pair(
         return (Outcome { verdict: "LEXDIFF", detail: d, ndiag, codes }, oc);
     }
     let tc = analyse_safe(&dir.join("p"), trans).map(|d| canon(&TokMaps::new(symbols, trans), &d));
+    // the same re-layout applied in place to the live project must leave every diagnostic on its token too
+    if live {
+        if let (Ok(a), Ok(b)) = (&oc, &tc) {
+            // a design-unit name defined in two files: which one wins after an edit follows the edit order, not the
+            // layout (outside the claim, as in C01/C04; DESIGN 4.0)
+            let unit_dup = a.iter().any(|l| l.contains("a primary unit has already been declared") || l.contains("duplicate architecture"));
+            if a == b && !unit_dup {
+                let lc = analyse_live_safe(&dir.join("p"), orig, trans).map(|d| canon(&TokMaps::new(symbols, trans), &d));
+                match lc {
+                    Ok(l) if &l == a => {}
+                    Ok(l) => {
+                        let detail = format!(
+                            "after the re-layout was applied IN PLACE (Source::change + update_source) and the project re-analysed: {}",
+                            first_diff(a, &l)
+                        );
+                        return (Outcome { verdict: "MISMATCH", detail, ndiag, codes }, oc);
+                    }
+                    Err(e) => {
+                        let detail = format!("the analysis panics after the in-place re-layout (update_source): {}", e);
+                        return (Outcome { verdict: "MISMATCH", detail, ndiag, codes }, oc);
+                    }
+                }
+            }
+        }
+    }
     let o = match (&oc, &tc) {
         (Ok(a), Ok(b)) if a == b => Outcome { verdict: "OK", detail: String::new(), ndiag, codes },
         (Ok(a), Ok(b)) => Outcome { verdict: "MISMATCH", detail: first_diff(a, b), ndiag, codes },
@@ -996,7 +1094,7 @@ fn run_project(symbols: &Symbols, dir: &Path, seed: u64, idx: usize, p: &Proj, n
         let r = catch_unwind(AssertUnwindSafe(|| {
             let mut rng = Rng::new(tseed);
             let (trans, st) = transform_project(symbols, &mut rng, &p.libs, mode & !MODE_ONE_FILE, only);
-            let (o, c) = compare_pair(symbols, dir, &p.libs, oc.as_ref(), &trans);
+            let (o, c) = compare_pair(symbols, dir, &p.libs, oc.as_ref(), &trans, only.is_some());
             (trans, st, o, c)
         }));
         match r {
@@ -1160,7 +1258,7 @@ fn main() {
             let trans = files_from_json(&v["trans"]).expect("trans");
             let symbols = Symbols::default();
             let dir = PathBuf::from(&args[3]);
-            let r = catch_unwind(AssertUnwindSafe(|| compare_pair(&symbols, &dir, &orig, None, &trans)));
+            let r = catch_unwind(AssertUnwindSafe(|| compare_pair(&symbols, &dir, &orig, None, &trans, true)));
             match r {
                 Ok((o, oc)) => println!(
                     "{}",
